@@ -114,6 +114,7 @@ def run(ctx):
     r.floor("twin-pairs", n)
     token_map(ctx, lexpr)
     close_param(ctx, lexpr)
+    dot_class(ctx, lexpr)
     from .. import tailmap
     rt = ctx.rule("R-TAIL-MAP", "the datum list iterator classifies the cdr of a cell exactly like the value's own "
                                 "list iterator (Cons continues, Null ends, anything else is a dotted tail)")
@@ -242,3 +243,76 @@ def close_param(ctx, lexpr, rule=None):
                                         "the matching closing delimiter is rejected" if close == term else
                                         "a closing delimiter that does not match the opener is accepted"), f.loc())
     r.floor("close-cases", n)
+
+
+def dot_class(ctx, lexpr):
+    """After an element and a `.`, the byte that follows decides between "dotted tail" and "a symbol that starts
+    with a dot".  Both list parsers must draw that line at the same bytes (256 values and end of input)."""
+    r = ctx.rule("R-DOT-CLASS", "parse_list and parse_list_meta classify the byte after a `.` identically (dotted tail vs "
+                                "symbol starting with a dot), for all 256 byte values and end of input")
+    OPT, RES = "std::option::Option", "std::result::Result"
+    maps = {}
+    for fp, elem in ((P + "parse_list", P + "expect_value"), (P + "parse_list_meta", P + "expect_datum")):
+        f = lexpr.fn(fp)
+        if f is None:
+            r.anchor_missing(fp)
+            return
+        m = {}
+        for b in list(range(256)) + [None]:
+            def hook(S, fn, bb, t, args, path, b=b, elem=elem):
+                nm = F.callee_names(t)
+                if P + "parse_whitespace" in nm:
+                    k = sum(1 for e in path.events if e[0] == "call" and P + "parse_whitespace" in e[1])
+                    if k == 0:
+                        return ("value", Adt(RES, 0, [Adt(OPT, 1, [0x61])]))
+                    if k == 1:
+                        return ("value", Adt(RES, 0, [Adt(OPT, 1, [0x2E])]))
+                    return ("stop", "later")
+                if P + "peek_or_null" in nm:
+                    return ("value", Adt(RES, 0, [b if b is not None else 0]))
+                if P + "peek" in nm or "parse::read::Read::peek" in nm:
+                    return ("value", Adt(RES, 0, [Adt(OPT, 1, [b]) if b is not None else Adt(OPT, 0, [])]))
+                if elem in nm:
+                    k = sum(1 for e in path.events if e[0] == "call" and elem in e[1])
+                    if k == 0:
+                        return ("value", Adt(RES, 0, [UNK]))
+                    return ("stop", "tail")
+                if any(x.endswith("parse_symbol_suffix") or x.endswith("Parser::<R>::parse_symbol") for x in nm):
+                    return ("stop", "symbol")
+                if any(x.endswith("Datum::into_inner") for x in nm):
+                    return ("value", sim.Tup([UNK, UNK]))
+                return None
+
+            S = sim.Sim([lexpr], hooks={"call": hook}, inline=lex.helper_inline(lexpr), max_visits=4, max_paths=4000)
+            outs = set()
+            try:
+                for p in S.run(f, args={f.param_index("terminator") or 2: 0x29}):
+                    if p.end in ("stop:tail", "stop:symbol"):
+                        outs.add(p.end[5:])
+                    elif p.end == "return" and isinstance(p.ret, Adt) and p.ret.adt.endswith("Result"):
+                        outs.add("ok" if p.ret.variant == 0 else "err")
+                    elif p.end == "panic":
+                        outs.add("panic")
+            except sim.Limit:
+                outs = {"inexact"}
+            m[b] = "/".join(sorted(outs))
+        maps[fp] = m
+    a, b2 = maps[P + "parse_list"], maps[P + "parse_list_meta"]
+    diff = [k for k in a if a[k] != b2[k]]
+    mixed = [k for k in a if "/" in a[k] or a[k] in ("", "inexact")]
+    r.floor("bytes", len(a))
+    if mixed:
+        r.violation(P + "parse_list", "inexact", "cannot classify the byte after a dot for %s: %s" % (
+            lex.fmt_bytes([x for x in mixed if x is not None]), sorted({a[k] for k in mixed})))
+    elif diff:
+        ex = diff[0]
+        r.violation(P + "parse_list_meta", "dot-class",
+                    "after `.`, %d following byte value(s) are classified differently by the two list parsers, e.g. %s is "
+                    "'%s' for parse_list but '%s' for parse_list_meta: `(a .(b))`-style input is read by one API and "
+                    "rejected or read differently by the other (bytes: %s)" % (
+                        len(diff), "end of input" if ex is None else lex.fmt_bytes([ex]), a[ex], b2[ex],
+                        lex.fmt_bytes([x for x in diff if x is not None])), lexpr.fn(P + "parse_list_meta").loc())
+    else:
+        tails = sorted(k for k in a if a[k] == "tail" and k is not None)
+        r.ok("both list parsers treat %s (and end of input: %s) after a dot as the start of a dotted tail and every other "
+             "byte as part of a symbol" % (lex.fmt_bytes(tails), a[None]), lexpr.fn(P + "parse_list"))
